@@ -1,6 +1,7 @@
 package props
 
 import (
+	"strings"
 	"fmt"
 	nodetypes "github.com/SaoNetwork/sao/x/node/types"
 	sdk "github.com/cosmos/cosmos-sdk/types"
@@ -149,6 +150,10 @@ func init() {
 		a := map[string]string{"leader": l, "plans": c01plans + ",plain-3,noise-3", "ops": "150"}
 		if l == "staking" {
 			a["stores"] = "1"
+		}
+		if strings.HasPrefix(l, "life") || strings.HasPrefix(l, "renewals") || l == "faults" {
+			// thousands of blocks: restart every few hundred commits instead of every seventh
+			a["plans"] = strings.Replace(a["plans"], "restart7", "restart397", 1)
 		}
 		if i%4 == 1 {
 			a["plans"] += ",racenoise"
